@@ -627,6 +627,12 @@ sgsisx(superlu_options_t *options, SuperMatrix *A, int *perm_c, int *perm_r,
 
 	if ( lwork == -1 ) {
 	    mem_usage->total_needed = *info - A->ncol;
+	    Destroy_CompCol_Permuted(&AC);
+	    if ( perm ) SUPERLU_FREE(perm);
+	    if ( A->Stype == SLU_NR ) {
+		Destroy_SuperMatrix_Store(AA);
+		SUPERLU_FREE(AA);
+	    }
 	    return;
 	}
 
@@ -652,7 +658,14 @@ sgsisx(superlu_options_t *options, SuperMatrix *A, int *perm_c, int *perm_r,
     }
 
     if ( options->PivotGrowth ) {
-	if ( *info > 0 ) return;
+	if ( *info > 0 ) {
+	    if ( nofact ) Destroy_CompCol_Permuted(&AC);
+	    if ( A->Stype == SLU_NR ) {
+		Destroy_SuperMatrix_Store(AA);
+		SUPERLU_FREE(AA);
+	    }
+	    return;
+	}
 
 	/* Compute the reciprocal pivot growth factor *recip_pivot_growth. */
 	*recip_pivot_growth = sPivotGrowth(A->ncol, AA, perm_c, L, U);
